@@ -92,7 +92,7 @@ def nontrivial(pid, r):
 def trim(r):
     r = json.loads(json.dumps(r))
     o = r.get("out", {})
-    for k in ("singles", "presentations"):
+    for k in ("singles", "pairs", "presentations"):
         if k in o:
             o[k] = "(%d entries)" % len(o[k])
     return r
@@ -139,17 +139,22 @@ def cli_sample(bins, pid, tier, seed):
                 r = fx.monorail(args)
                 a_recs.append({"ev": "groups", "config": cfg, "roots": allr, "pruned": False, "changed": [], "out": groups_of(r, "target_groups"), "via": api})
             dot = os.path.join(fx.root, "g.dot")
+            if i % 2 == 0:
+                # the output file already holds an older, longer render: nothing of it may survive
+                with open(dot, "w") as f:
+                    f.write("digraph DAG {\n" + "".join('%d [label="stale/old%d"];\n%d -> %d\n' % (90 + j, j, 90 + j, 91 + j) for j in range(40))
+                            + "node [shape=box];\nedge [color=gray];\n}")
             r = fx.monorail(["target", "render", "-f", dot])
             if r["rc"] == 0 and os.path.exists(dot):
                 txt = open(dot).read()
                 labels = {int(m.group(1)): m.group(2) for m in re.finditer(r'^(\d+) \[label="(.*)"\];$', txt, re.M)}
-                edges = [[runlib.P(labels[int(m.group(1))]), runlib.P(labels[int(m.group(2))])] for m in re.finditer(r'^(\d+) -> (\d+)', txt, re.M)]
+                edges = [[runlib.P(labels.get(int(m.group(1)), "?" + m.group(1))), runlib.P(labels.get(int(m.group(2)), "?" + m.group(2)))] for m in re.finditer(r'^(\d+) -> (\d+)', txt, re.M)]
                 a_recs.append({"ev": "edges", "config": cfg, "out": {"ok": True, "nodes": sorted(runlib.P(v) for v in labels.values()),
                                                                      "edges": sorted(edges)}, "via": "render"})
             else:
                 a_recs.append({"ev": "edges", "config": cfg, "out": {"ok": False, "err": fx.err_type(r)[0] or "other", "nodes": [], "edges": []}, "via": "render"})
             # a render that cannot write anything must not report success
-            r = fx.monorail(["target", "render", "-f", "/dev/full"])
+            r = fx.monorail(["target", "render", "-f", "/dev/full"], limit_as=2 << 30)
             if r["rc"] == 0:
                 a_recs.append({"ev": "edges", "config": cfg, "out": {"ok": True, "nodes": [], "edges": []}, "via": "render_to_dev_full"})
             # run: all targets, and -t X --deps for one target
